@@ -72,6 +72,23 @@ Theorem C18_kernel_rim_rowwise : forall (T : Type) (o : NumOps T) (kern : (nat -
      (forall i, krim_predict o kern m (select r Xtrain) i = krim_fit_labels o m (r i))).
 Proof. exact @kernel_rim_rowwise. Qed.
 
+(* refit on the same object: predictions are those of the last fit alone (nothing left by an earlier fit is
+   read) and the training predictions are the last fit's labels_.  In the model this is by construction - fit
+   re-assigns every attribute predict reads and there is no prediction-time cache; that the CODE has this
+   shape is checked by the refit stream of harness/c18.py (and by C12's lifecycle tables). *)
+Theorem C18_refit_history_independent : forall (T : Type) (o : NumOps T) (kern : (nat -> nat -> T) -> (nat -> nat -> T) -> nat -> nat -> T)
+    (prev1 prev2 : option model) (kprev1 kprev2 : option krim) (learned : model) ntrain K (Xtrain W : nat -> nat -> T) (b : nat -> T)
+    (X : nat -> nat -> T) i,
+  (forall k, predict_proba o (refit prev1 learned) X i k = predict_proba o (refit prev2 learned) X i k) /\
+  predict o (refit prev1 learned) X i = predict o (refit None learned) X i /\
+  predict o (refit prev1 learned) Xtrain i = fit_labels o learned Xtrain i /\
+  (forall k, krim_predict_proba o kern (krim_refit kern kprev1 ntrain K Xtrain W b) X i k =
+             krim_predict_proba o kern (krim_refit kern kprev2 ntrain K Xtrain W b) X i k) /\
+  kr_input (krim_refit kern kprev1 ntrain K Xtrain W b) = Xtrain /\
+  krim_predict o kern (krim_refit kern kprev1 ntrain K Xtrain W b) Xtrain i =
+    krim_fit_labels o (krim_fit_store kern ntrain K Xtrain W b) i.
+Proof. exact @refit_history_independent. Qed.
+
 (* Tree.predict: whenever the mask-based recursion returns, it returns one label per row, and the label of
    row i is the label reached by routing row i alone *)
 Theorem C18_tree_predict_rowwise : forall (T : Type) (o : NumOps T) fuel (t : @atree T) (X : list (nat -> T)) node v (dx : nat -> T),
@@ -111,6 +128,7 @@ Print Assumptions C18_predict_is_argmax_rowwise.
 Print Assumptions C18_mlp_retained_state_irrelevant.
 Print Assumptions C18_train_predict_is_labels.
 Print Assumptions C18_kernel_rim_rowwise.
+Print Assumptions C18_refit_history_independent.
 Print Assumptions C18_tree_predict_rowwise.
 Print Assumptions C18_tree_predict_total.
 Print Assumptions C18_tree_predict_select.
